@@ -13,6 +13,8 @@ package main
 //        and whether both gateway adapters decode to the same frame and queue the same reply token (`gw=`)
 //   det jv=.. id=.. m=.. r=.. e=..            real determineMessageType on a hand-made Probe
 //   doc jv=.. id=.. m=.. p=.. r=.. e=..       a JSON document rendered from the spec -> real Decode + both adapters
+//   multi sep=.. trail=.. cut=.. m=kind:rid:len,…  2–5 messages coalesced in ONE inbound buffer -> both gateway adapters, called
+//        the way the gateway does (decode, advance by `consumed`, decode again): every message must come out, in order
 //   fuzz <hex>                                arbitrary bytes -> real Decode + both adapters (never PANIC)
 
 import (
@@ -367,6 +369,40 @@ func c24Fuzz(g *Gen) []byte {
 	}
 }
 
+// messages a client may pipeline: (kind of frame, request id, text)
+var c24Pool = []struct{ kind, rid, text string }{
+	{"ping", "p1", `{"jsonrpc":"2.0","method":"ping","id":"p1"}`},
+	{"send", "s1", `{"jsonrpc":"2.0","method":"send","id":"s1","params":{"channelId":"c","channelType":2,"payload":"aGk="}}`},
+	{"connect", "c1", `{"jsonrpc":"2.0","method":"connect","id":"c1","params":{"uid":"u","token":"t","deviceFlag":1}}`},
+	{"recvack", "", `{"method":"recvack","params":{"messageId":"12","messageSeq":3}}`},
+	{"disconnect", "d1", `{"method":"disconnect","id":"d1","params":{"reasonCode":1,"reason":"bye"}}`},
+	{"ping", "p\u00e9", "{ \"method\" : \"ping\" ,\n \"id\" : \"p\u00e9\" }"},
+	{"send", "s2", `{"method":"send","id":"s2","params":{"channelId":"{}[]","channelType":1,"payload":"e30=","clientMsgNo":"}{"}}`},
+}
+
+func genC24Multi(g *Gen) {
+	n := g.R.Range(2, 5)
+	var ms []string
+	last := 0
+	for i := 0; i < n; i++ {
+		k := g.R.Intn(len(c24Pool))
+		last = k
+		ms = append(ms, fmt.Sprintf("%s:%s:%d", c24Pool[k].kind, Hex([]byte(c24Pool[k].rid)), len(c24Pool[k].text)))
+		ms[i] = strconv.Itoa(k) + ":" + ms[i]
+	}
+	sep := []string{"none", "sp", "nl", "crlf"}[g.R.Intn(4)]
+	cut, trail := -1, 0
+	switch g.R.Pick(5, 3, 2) {
+	case 1:
+		cut = g.R.Range(1, len(c24Pool[last].text)-1)
+		g.Count("multi:last-partial")
+	case 2:
+		trail = 1
+	}
+	g.Count("multi:sep-" + sep)
+	g.Op("multi", "sep=%s trail=%d cut=%d m=%s", sep, trail, cut, strings.Join(ms, ","))
+}
+
 func genC24(g *Gen) {
 	g.Case()
 	// exhaustive: determineMessageType over every presence/value combination
@@ -400,7 +436,9 @@ func genC24(g *Gen) {
 		if i%500 == 499 {
 			g.Case()
 		}
-		switch g.R.Pick(25, 25, 15, 35) {
+		switch g.R.Pick(25, 25, 15, 35, 8) {
+		case 4:
+			genC24Multi(g)
 		case 0:
 			genC24Out(g)
 		case 1:
@@ -637,6 +675,8 @@ func (c24Runner) Step(op string) (out string) {
 			return "bad-op"
 		}
 		return c24DecodeSummary(text, true)
+	case "multi":
+		return c24Multi(m)
 	case "fuzz":
 		if len(f) != 2 {
 			return "bad-op"
@@ -1059,4 +1099,66 @@ func c24DecodeSummary(text []byte, detailed bool) string {
 	ab := strings.SplitN(gw, " || ", 2)
 	sort.Strings(nil)
 	return s + " gwj=" + cls(ab[0]) + " gww=" + cls(ab[1])
+}
+
+func c24Multi(m kvm) string {
+	sep, ok := map[string]string{"none": "", "sp": " ", "nl": "\n", "crlf": "\r\n"}[m["sep"]]
+	if !ok {
+		return "bad-op"
+	}
+	cut, err := strconv.Atoi(m["cut"])
+	if err != nil {
+		return "bad-op"
+	}
+	parts := strings.Split(m["m"], ",")
+	var buf []byte
+	for i, p := range parts {
+		q := strings.Split(p, ":")
+		k, err := strconv.Atoi(q[0])
+		if err != nil || len(q) != 4 || k < 0 || k >= len(c24Pool) || q[1] != c24Pool[k].kind || q[2] != Hex([]byte(c24Pool[k].rid)) || q[3] != strconv.Itoa(len(c24Pool[k].text)) {
+			return "bad-op"
+		}
+		t := c24Pool[k].text
+		if i == len(parts)-1 && cut >= 0 {
+			if cut < 1 || cut >= len(t) || m["trail"] == "1" {
+				return "bad-op"
+			}
+			t = t[:cut]
+		}
+		if i > 0 {
+			buf = append(buf, sep...)
+		}
+		buf = append(buf, t...)
+	}
+	if m["trail"] == "1" {
+		buf = append(buf, sep...)
+	}
+	run := func(dec func(session.Session, []byte) ([]frame.Frame, int, error), take func(session.Session, int) []string, s session.Session) string {
+		rest := buf
+		var out []string
+		for call := 0; call < 12 && len(rest) > 0; call++ {
+			frames, n, err := dec(s, rest)
+			if err != nil {
+				out = append(out, "err")
+				break
+			}
+			if len(frames) == 0 || n <= 0 {
+				break
+			}
+			if n > len(rest) {
+				out = append(out, "overrun")
+				break
+			}
+			for _, fr := range frames {
+				out = append(out, fmt.Sprintf("%s:%s:%d", strings.Fields(frameStr(fr))[0], hs(strings.Join(take(s, 10), ",")), n))
+			}
+			rest = rest[n:]
+		}
+		return fmt.Sprintf("[%s] rest=%d", strings.Join(out, "|"), len(rest))
+	}
+	ja := gwjson.New()
+	s1 := newSess("")
+	_ = ja.OnOpen(s1)
+	wa := wsmux.New()
+	return "j=" + run(ja.Decode, ja.TakeReplyTokens, s1) + " w=" + run(wa.Decode, wa.TakeReplyTokens, newSess(""))
 }
